@@ -351,5 +351,5 @@ NPROC = {"quick": 8, "thorough": 16}
 WALL_CAP = {"quick": 90, "thorough": 1200}
 PARTS = [
     Part("systematic", check, enumerate=enum_systematic, budget={"quick": None, "thorough": None}),
-    Part("random", check, strategy=lambda ctx: random_cases(), budget={"quick": 150, "thorough": 2500}),
+    Part("random", check, strategy=lambda ctx: random_cases(), budget={"quick": 400, "thorough": 2500}),
 ]
